@@ -414,6 +414,9 @@ class PaneOptions:
 
 def _ordered_type_key(ty: t.Any) -> t.Any:
     """Hashable key of a type expression which, unlike `==` on `typing` objects, distinguishes the order of union members."""
+    if isinstance(ty, (list, tuple)):
+        # a parameter list, as in `Callable[[int], str]`
+        return tuple(map(_ordered_type_key, ty))
     args = t.get_args(ty)
     if not args or t.get_origin(ty) is t.Literal:
         return ty
